@@ -13,7 +13,7 @@ PROP = "C12"
 
 
 def plan(tier, seed):
-    k = 40 if tier == "quick" else 1600
+    k = 80 if tier == "quick" else 2000
     return [{"seed": seed, "shard": i, "n": 120} for i in range(k)]
 
 
